@@ -16,7 +16,7 @@ namespace TrsoAux
 
 /-! ### sorting is a permutation -/
 
-theorem insertStable_perm {α} (lt : α → α → Bool) (x : α) (l : List α) :
+theorem dc_insertStable_perm {α} (lt : α → α → Bool) (x : α) (l : List α) :
     (insertStable lt x l).Perm (x :: l) := by
   induction l with
   | nil => exact List.Perm.refl _
@@ -26,18 +26,18 @@ theorem insertStable_perm {α} (lt : α → α → Bool) (x : α) (l : List α) 
     · exact (List.Perm.cons y ih).trans (List.Perm.swap x y ys)
     · exact List.Perm.refl _
 
-theorem ssort_perm {α} (lt : α → α → Bool) (l : List α) : (ssort lt l).Perm l := by
+theorem dc_ssort_perm {α} (lt : α → α → Bool) (l : List α) : (ssort lt l).Perm l := by
   induction l with
   | nil => exact List.Perm.refl _
   | cons x xs ih =>
     show (insertStable lt x (ssort lt xs)).Perm (x :: xs)
-    exact (insertStable_perm lt x _).trans (List.Perm.cons x ih)
+    exact (dc_insertStable_perm lt x _).trans (List.Perm.cons x ih)
 
 theorem sortVars_nodup (vs : List Var) : (sortVars vs).Nodup :=
-  (ssort_perm _ _).nodup_iff.2 (nodup_dedup' vs)
+  (dc_ssort_perm _ _).nodup_iff.2 (nodup_dedup' vs)
 
 theorem nsort_nodup (l : List Name) : (nsort l).Nodup :=
-  (ssort_perm _ _).nodup_iff.2 (nodup_dedup' l)
+  (dc_ssort_perm _ _).nodup_iff.2 (nodup_dedup' l)
 
 /-- a plain variable is determined by its name -/
 theorem plainReg_eq {v : Var} (h : PlainReg v) : v = Var.plain v.name := by
@@ -340,7 +340,7 @@ theorem denL_sumSafe (S : LeafSem card leaf) (b : Bool) {e : Expr} {rs : List Va
 
 namespace TrsoAux
 
-theorem denLProd_append (as bs : List Expr) (σ : Val) :
+theorem dc_denLProd_append (as bs : List Expr) (σ : Val) :
     denLProd card leaf (as ++ bs) σ = denLProd card leaf as σ * denLProd card leaf bs σ := by
   rw [denLProd_eq, denLProd_eq, denLProd_eq, List.map_append, List.prod_append]
 
@@ -442,7 +442,7 @@ theorem denL_canonFlat_aux (S : LeafSem card leaf) : ∀ (xs es : List Expr), Go
       · rename_i xs' hxs
         cases h
         intro σ
-        rw [denLProd_append]
+        rw [dc_denLProd_append]
         simp only [denLProd, denL]
         rw [denL_canonFlat_aux S gs gs' ⟨hx.1.1, hx.2.1⟩ hnd.1 hgs σ,
           denL_canonFlat_aux S xs xs' ⟨hx.1.2, hx.2.2⟩ hnd.2 hxs σ]
